@@ -40,7 +40,7 @@ ASSUMPTIONS = [
 
 def run(ctx: Ctx):
   m = model(ctx)
-  for r in (r1, r2, r3, r4, r5, r6, r8, r9, r10, r11, r12, r13, r15):
+  for r in (r1, r2, r3, r4, r5, r6, r8, r9, r10, r11, r12, r13, r15, r16):
     ctx.guard(r, m)
   from mlmverif.props import c01
   ctx.include('R-C11-14', '"merging gives the same result for every grouping and order ... neutral element": the NaN convention of an'
@@ -815,12 +815,66 @@ def r15(ctx: Ctx, m):
   ctx.floor(rule, 10, n)
 
 
+def r16(ctx: Ctx, m):
+  rule = 'R-C11-16'
+  ctx.rule(rule, '"merging gives the same result for every grouping and order": a statistic that is an ARRAY with the dtype of the'
+           ' user\'s data — a field some method of the accumulator updates with an axis reduction of its inputs'
+           ' (`np.sum(x, axis=0)`: one entry per feature) — is never updated in place (`self.f += ...`) in add / merge. An'
+           ' in-place update keeps the RECEIVER\'s dtype: an integer array cannot take a float operand (UFuncTypeError,'
+           ' "same_kind" casting), so a state that first saw integer features fails on the first float batch or shard while'
+           ' the other order works; re-binding (`self.f = self.f + ...`) promotes. (In-place updates also write into an'
+           ' array the state may share with the operand it was first assigned from.)')
+  n = 0
+  for ci in m.accumulators:
+    arrayish = set()
+    for fi in ci.methods.values():
+      for x in walk_no_nested(fi.node):
+        tgt = None
+        if isinstance(x, ast.AugAssign) and is_self_attr(x.target):
+          tgt, val = x.target.attr, x.value
+        elif isinstance(x, ast.Assign) and len(x.targets) == 1 and is_self_attr(x.targets[0]):
+          tgt, val = x.targets[0].attr, x.value
+        if tgt is None:
+          continue
+        if any(isinstance(c, ast.Call) and unparse(c.func) in ('np.sum', 'np.nansum', 'np.mean', 'np.nanmean', 'np.prod')
+               and kwarg(c, 'axis') is not None and not (isinstance(kwarg(c, 'axis'), ast.Constant) and kwarg(c, 'axis').value is None)
+               for c in ast.walk(val)):
+          arrayish.add(tgt)
+    if not arrayish:
+      continue
+    for name in ('add', 'merge'):
+      fi = ci.methods.get(name)
+      if fi is None:
+        continue
+      for fld in sorted(arrayish):
+        ups = [x for x in walk_no_nested(fi.node)
+               if (isinstance(x, ast.AugAssign) and is_self_attr(x.target) and x.target.attr == fld)
+               or (isinstance(x, ast.Assign) and any(is_self_attr(t) and t.attr == fld for t in x.targets))]
+        for u in ups:
+          n += 1
+          what = f'{ci.name}.{name}: per-feature statistic `self.{fld}` is re-bound, not updated in place'
+          if isinstance(u, ast.AugAssign):
+            ctx.fail(rule, fi, what,
+                     f'`{unparse(u)[:70]}` updates the per-feature array `self.{fld}` in place: with integer features first and'
+                     ' float features later (another batch, another shard) numpy refuses the cast and the update raises, while'
+                     ' float-then-integer works — the result depends on the order of the operands', node=u)
+          else:
+            ctx.ok(rule, fi, what, u)
+  ctx.floor(rule, 4, n)
+
+
 from mlmverif.selfcheck import B, OK  # noqa: E402
 
 _R = 'aggregates/rolling_stats.py'
 _U = 'aggregates/utils.py'
 _T = 'aggregates/retrieval.py'
 VARIANTS = [
+    B('revert-regression-sums-updated-in-place', 'aggregates/rolling_stats.py',
+      "    self.sum_xy = self.sum_xy + other.sum_xy", "    self.sum_xy += other.sum_xy", 'R-C11-16'),
+    B('regression-add-updates-in-place', 'aggregates/rolling_stats.py',
+      "    self.sum_xx = self.sum_xx + np.sum(x**2, axis=0)", "    self.sum_xx += np.sum(x**2, axis=0)", 'R-C11-16'),
+    OK('regression-sum-through-np-add', 'aggregates/rolling_stats.py',
+       "    self.sum_xy = self.sum_xy + other.sum_xy", "    self.sum_xy = np.add(self.sum_xy, other.sum_xy)"),
     B('scalar-minmax-merged-with-builtins', 'aggregates/rolling_stats.py',
       "    self._min = np.min((self._min, other.min), axis=self.axis)\n    self._max = np.max((self._max, other.max), axis=self.axis)",
       "    if self.axis is None:\n      self._min = min(self._min, other.min)\n      self._max = max(self._max, other.max)\n    else:\n      self._min = np.minimum(self._min, other.min)\n      self._max = np.maximum(self._max, other.max)", 'R-C11-15'),
